@@ -182,7 +182,7 @@ func runC03(args []string) int {
 			_, slots := fileSlots(f)
 			n := rg.intn(40)
 			type added struct {
-				mn   int
+				mn    int
 				plain reflect.Value
 			}
 			var seq []added
